@@ -3,6 +3,9 @@
 #ifndef TETL_MATH_ABS_HPP
 #define TETL_MATH_ABS_HPP
 
+#include <etl/_cmath/signbit.hpp>
+#include <etl/_type_traits/is_floating_point.hpp>
+
 namespace etl {
 namespace detail {
 
@@ -14,13 +17,18 @@ template <typename T>
     // constexpr auto isLongLong = is_same_v<T, long long>;
     // static_assert(isInt || isLong || isLongLong);
 
-    if (n > T(0)) {
-        return n;
+    if constexpr (is_floating_point_v<T>) {
+        // clears the sign bit: also of -0.0 and of a NaN, which comparisons cannot see
+        return etl::signbit(n) ? -n : n;
+    } else {
+        if (n > T(0)) {
+            return n;
+        }
+        if (n == T(0)) {
+            return T(0);
+        }
+        return n * T(-1);
     }
-    if (n == T(0)) {
-        return T(0); // +0 for a floating-point -0.0
-    }
-    return n * T(-1);
 }
 
 } // namespace detail
